@@ -123,7 +123,14 @@ def build_classes():
             mode = self.server_mode
             if mode == "silent":
                 return
-            if mode == "ack":
+            if mode == "echo":
+                # the answer is a function of the request: crossed replies become visible
+                req = self._payload_of(apdu, "serviceParameters") or b""
+                x = ConfirmedPrivateTransferACK(context=apdu)
+                x.vendorID = 999
+                x.serviceNumber = 1
+                x.resultBlock = Any(OctetString(bytes(reversed(req))))
+            elif mode == "ack":
                 x = ConfirmedPrivateTransferACK(context=apdu)
                 x.vendorID = 999
                 x.serviceNumber = 1
@@ -191,6 +198,8 @@ def build_classes():
             ev["state"] = iocb.ioState
             ev["ok"] = iocb.ioResponse is not None
             ev["err"] = iocb.ioError is not None
+            ev["request"] = self._payload_of(iocb.args[0], "serviceParameters")
+            ev["response"] = self._payload_of(iocb.ioResponse, "resultBlock") if iocb.ioResponse is not None else None
 
         def residue(self):
             """what the stack still holds for transactions"""
